@@ -265,12 +265,14 @@ class World:
         v.assume(mk_bool(z3.Concat(self.delivered, self.msgs) == z3.Concat(s_deliv, s_msgs)))
         v.assume(seq_len(self.msgs) < seq_len(s_msgs))  # resolved only after at least one popleft
         fut.is_done = True
+        self.putw = None
         self.obj._put_message_waiter = None  # the receiver clears the field when it resolves the waiter
         self.pump_on_put = False
         self.havoc_receiver_side()
         self.sync_in()
         v.assume(self.inv())
         self.snapshot()
+        v.cover('pump-resumed-after-put-waiter')
         return None
 
     # receive: await asyncio.wait([pop_waiter, pump_task], FIRST_COMPLETED)
@@ -314,6 +316,7 @@ class World:
         v.assume(self.inv())
         self.recv_waiting = False
         self.snapshot()
+        v.cover('receive-resumed-after-wait[%s]' % ('woken' if bool(woke) else 'pump-finished'))
         return None
 
 
@@ -420,6 +423,12 @@ def pump_segments(v):
     v.check('invariant-at-pump-exit', w.inv())
     v.check('guarantee-of-pump-segment-ending-at:exit', w.guarantee_pump())
     v.cover('pump-finished')
+
+
+# C17 ("nothing is sent after the connection is lost", "a disconnect is reported to a sender") assumes that the pump
+# raises the client_disconnected flag in the very segment in which it pulls the disconnect (invariant I6: flag <=> the
+# server delivered the disconnect).  That assumption is this harness; it is therefore also run as part of ./check C17.
+harness('C17', BR + '._pump', name='pump_segments[dependency of C17: disconnect flag raised with the pull]', setup=_setup)(pump_segments)
 
 
 # --- receive ------------------------------------------------------------------------------------
